@@ -2157,6 +2157,10 @@ def hist_inputfile(program, res, pid, state):
                 expect = "accept" if label in ("same", "entity") else "reject"
             else:
                 expect = "accept" if label in ("child", "child-entity") else "reject"
+            if expect == "unspecified":
+                # not judged and not executed: an accepted assignment would change the form the next calls see
+                res.count("history_unspecified")
+                continue
             # KNOWN FINDING guard (stale-optional): the None rule is frozen when the InputFile is built;
             # it is not refreshed when an accepted value flips the parameter's `enabled` member
             flipped = form_now.get("enabled", True) != enabled_at_start.get(key, True)
